@@ -524,4 +524,11 @@ example : parseExpressionToks [wordT "x", symT "=", wordT "not", symT "+", wordT
 
 example : ¬ ∃ e, Renders 0 e [wordT "not", symT "=", wordT "y"] := (parse_rejects_iff _).1 (by rfl)
 
+/-- **redundant parentheses never change the result**: a text that parses, put in parentheses, parses to the same tree -/
+theorem parens_transparent {ts : List Tok} {e : Raw} (o c : Tok) (ho : isSym o "(" = true) (hc : isSym c ")" = true)
+    (h : parseExpressionToks ts = .ok e) : parseExpressionToks (o :: (ts ++ [c])) = .ok e := by
+  apply parse_complete
+  have h8 : Renders 8 e (o :: (ts ++ [c])) := .paren o c ho hc (parse_sound h)
+  exact upTo 8 0 (by omega) h8 (fun _ _ => headOk_cons (notLogic_of_sym ho) _)
+
 end Hpl
